@@ -116,12 +116,18 @@ def specRows (m : Mode) : List Nat → Poly → List Nat → Option (Poly × Lis
       | some (t, ws) => some (r :: t, ws)
 
 /-- the big-endian 64-bit words of a byte string (a trailing partial word is dropped) -/
-def wordsBE : Nat → Bytes → List Nat
-  | 0, _ => []
-  | n + 1, b => if b.length < 8 then [] else beNat (b.take 8) :: wordsBE n (b.drop 8)
+def wordsBE : Bytes → List Nat
+  | a0 :: a1 :: a2 :: a3 :: a4 :: a5 :: a6 :: a7 :: rest =>
+      beNat [a0, a1, a2, a3, a4, a5, a6, a7] :: wordsBE rest
+  | _ => []
 
-/-- the bytes the sampler family has not looked at yet: rest of the buffer, then the stream -/
-def pendingBytes (s : Bytes) (b : Buf) : Bytes :=
-  if b.ptr = 0 then s else b.data.drop b.ptr ++ s
+/-- the bytes the sampler family has not consumed yet, seen from inside a call: the rest of the
+    buffer, then the stream -/
+def pendingIn (s : Bytes) (b : Buf) : Bytes := b.data.drop b.ptr ++ s
+
+/-- the same at a call boundary, where `ptr == 0` (never filled) and `ptr == 1024` (used up) both
+    mean "refill first" -/
+def pendingAtCall (s : Bytes) (b : Buf) : Bytes :=
+  if b.ptr = 0 ∨ b.ptr = bufLen then s else b.data.drop b.ptr ++ s
 
 end Lattigo.Sampler
